@@ -62,6 +62,10 @@ func importRuns(r *common.Rng) []*Run {
 		}
 		b.WriteString("  <xs:complexType name=\"Empty\"/>\n</xs:schema>\n")
 		add("xsd", "spec.xsd", b.String())
+		// regression corpus: a directly recursive complexType and a two-type cycle (stack overflow before fixes/C20-9)
+		add("xsd", "recursive.xsd", "<?xml version=\"1.0\"?>\n<xs:schema xmlns:xs=\"http://www.w3.org/2001/XMLSchema\">\n  <xs:element name=\"Root\" type=\"Node\"/>\n"+
+			"  <xs:complexType name=\"Node\">\n    <xs:sequence>\n      <xs:element name=\"v\" type=\"xs:int\"/>\n      <xs:element name=\"next\" type=\"Node\" minOccurs=\"0\"/>\n      <xs:element name=\"other\" type=\"Peer\" minOccurs=\"0\"/>\n    </xs:sequence>\n  </xs:complexType>\n"+
+			"  <xs:complexType name=\"Peer\">\n    <xs:sequence>\n      <xs:element name=\"back\" type=\"Node\" minOccurs=\"0\"/>\n    </xs:sequence>\n  </xs:complexType>\n</xs:schema>\n")
 	}
 	// avro
 	{
